@@ -7,3 +7,5 @@ import (
 )
 
 func realAST(jp *jmespath.JMESPath) interface{} { return []interface{}{} }
+
+func realTokens(text string) interface{} { return []interface{}{} }
